@@ -498,6 +498,11 @@ class BlockNet(Engine):
         return {'version': 1, 'vin': [{'hash': '%064x' % (seed * 0x9e3779b97f4a7c15 + 1), 'n': 3, 'script': '51', 'seq': 0xffffffff}],
                 'vout': [{'value': 1000, 'script': '51'}], 'locktime': 0, 'wit': None}
 
+    @staticmethod
+    def _S():
+        import bitcoin.core.script as S
+        return S
+
     # ---- mining, delivery, checking
     def _mine(self, i, a):
         ctx = self.ctx
@@ -528,7 +533,23 @@ class BlockNet(Engine):
             payload = RP.frame(RP.MAGIC[self.parties[validator]['chain']], 'block', RW.enc_block(blk))
         else:
             try:
-                obj = conv.block_from_spec(blk, a['mutable_txs'])
+                if a['mutable_txs'] and blk['txs'] and RW.block_merkle(blk).hex() == blk['merkle']:
+                    # the miner assembles the block from its mutable templates and goes on editing them
+                    # afterwards: the block it has handed out is a snapshot, not a view
+                    C = self.C
+                    mtxs = [conv.tx_from_spec(t, True) for t in blk['txs']]
+                    obj = C.CBlock(blk['version'], bytes.fromhex(blk['prev']), bytes.fromhex(blk['merkle']), blk['time'], blk['bits'], blk['nonce'], mtxs)
+                    for k, m in enumerate(mtxs):
+                        if RW.tx_has_witness(blk['txs'][k]):
+                            m.wit = C.CTxWitness([C.CTxInWitness(self._S().CScriptWitness([b'\x5a' * 7])) for _ in m.vin])
+                        elif k and len(m.vin):
+                            m.wit = C.CTxWitness([C.CTxInWitness(self._S().CScriptWitness([b'late'])) for _ in m.vin])
+                        m.nLockTime = (m.nLockTime + 1) & 0xffffffff
+                        if m.vout:
+                            m.vout[0].nValue = 1
+                    ctx.fault('templates-edited-after-block-was-built')
+                else:
+                    obj = conv.block_from_spec(blk, a['mutable_txs'])
             except Exception as e:
                 ctx.check(False, 'C16.accept-valid', 'constructing the block object raised %s: %s' % (type(e).__name__, e), rule=a['rule'])
                 return
